@@ -18,7 +18,8 @@ import Logrange.Model.PathMatchGreedy
 * `specmatch <pattern> <name>` — SPEC of the pattern language (PathSpec.specMatch): `1|0|bad`, and for a well-formed pattern
                                  ` g=<leftmost-commit reading 0|1> safe=<starSafe> safeA=<starSafeAscii> plain=<plainStars>`
 * `value <fields> <name>`     — Fields.Value model: `ok <hex>|panic` then ` spec=<hex|malformed>`
-* `fit.new <min> <max> <n> (<ts> <msg> <fields>)*n` — a fiterator over a list iterator, filter = current expression
+* `fit.new <min> <max> <n> (<ts> <msg> <fields>)*n` — a fiterator over a list iterator, filter = current expression;
+  `<min>`/`<max>` = `dflt`: the code's default range without a RANGE clause (regenerated `Generated.C05.fiterDefaultRange*`)
   (`fit.newjump`: the list iterator moves one step on a direction switch)
 * `fit.get` `fit.next` `fit.back <0|1>` `fit.drain` — operations; get → `ok <index>` | `eof`; drain → indices
 * `spec.filter <min> <max> <n> (<ts> <msg> <fields>)*n` — SPEC: indices of the events for which evalRef holds and
@@ -102,6 +103,8 @@ def parseEvents : Nat → Nat → List String → List IEv
   | _, _, _ => []
 
 def fltOf (s : St) : IEv → Bool := fun p => match s.built with | .ok f => f p.2 | .error _ => false
+def rangeArg (a : String) (dflt : Int) : Int := if a == "dflt" then dflt else a.toInt!
+
 def rngOf (s : St) : IEv → Bool := fun p => inRange s.fitMin s.fitMax p.2.ts
 
 def specSupported (s : St) (e : Option Expr) : Bool := match e with | none => true | some x => supported s.senv x
@@ -147,10 +150,10 @@ def step (s : St) (toks : List String) : St × String :=
     (s, s!"{m} spec={sp}")
   | "fit.new" :: mn :: mx :: n :: rest =>
     let evs := parseEvents n.toNat! 0 rest
-    ({ s with fit := new ⟨evs, 0, false, false⟩, fitMin := mn.toInt!, fitMax := mx.toInt! }, "ok")
+    ({ s with fit := new ⟨evs, 0, false, false⟩, fitMin := rangeArg mn Logrange.Generated.C05.fiterDefaultRangeMin, fitMax := rangeArg mx Logrange.Generated.C05.fiterDefaultRangeMax }, "ok")
   | "fit.newjump" :: mn :: mx :: n :: rest =>
     let evs := parseEvents n.toNat! 0 rest
-    ({ s with fit := new ⟨evs, 0, false, true⟩, fitMin := mn.toInt!, fitMax := mx.toInt! }, "ok")
+    ({ s with fit := new ⟨evs, 0, false, true⟩, fitMin := rangeArg mn Logrange.Generated.C05.fiterDefaultRangeMin, fitMax := rangeArg mx Logrange.Generated.C05.fiterDefaultRangeMax }, "ok")
   | ["fit.get"] =>
     let (f', r) := get (listIt IEv) (fltOf s) (rngOf s) (s.fit.it.items.length + 2) s.fit
     ({ s with fit := f' }, match r with | .ok e => s!"ok {e.1}" | .eof => "eof" | .outOfFuel => "fuel")
